@@ -27,10 +27,16 @@ Read == /\ Ev.t = "read" /\ seq' = Ev.n
                 THEN Fail("read-repair left a stale backup copy behind")
            ELSE IF Ev.rr /\ \E p \in Pos : a[p].ts # 0 /\ a[p].ts < b[p].ts THEN Fail("read-repair replaced a copy by an older one")
            ELSE Ok
+\* a newest copy whose expiry has passed may have been collected by the eviction worker before the result was read
+ExpiredVals == UNION {{x.val : x \in {y \in SeqSet(Ev.frags[j]) : y.exp}} : j \in 1..Len(Ev.frags)}
+MergeMayOrEvicted(F, g, X) == \A k \in Keys : LET S == {f[k] : f \in F} \ {None} IN
+                                IF S = {} THEN g[k] = None
+                                ELSE \/ g[k].ts = MaxTs(S)
+                                     \/ g[k] = None /\ \E c \in Newest(S) : c.val \in X
 Merge == /\ Ev.t = "merge" /\ seq' = Ev.n
          /\ LET F == {[k \in Keys |-> LET e == CHOOSE x \in SeqSet(Ev.frags[j]) : x.k = k IN [ts |-> e.ts, val |-> e.val]] : j \in 1..Len(Ev.frags)}
                 g == [k \in Keys |-> LET e == CHOOSE x \in SeqSet(Ev.result) : x.k = k IN [ts |-> e.ts, val |-> e.val]] IN
-            IF ~MergeMay(F, g) THEN Fail("merging fragments did not keep the newest copy of a key")
+            IF ~MergeMayOrEvicted(F, g, ExpiredVals) THEN Fail("merging fragments did not keep the newest copy of a key")
             ELSE IF \E k \in Keys : g[k].ts # 0 /\ g[k] \notin {f[k] : f \in F} THEN Fail("merging fragments produced a copy nobody delivered")
             ELSE Ok
 TNext == i <= Len(Trace) /\ i' = i + 1 /\ (Reset \/ Read \/ Merge) /\ UNCHANGED <<lay, frags, phase>>
